@@ -421,3 +421,23 @@ N.append({'id': 'cxx-namespace-conflict-named', 'file': 'src/treespec/richcompar
 # "nothing it reads has been assigned in between", and the prelude of a switch is collected
 # through plain nested blocks.
 N.append({'id': 'cxx-switch-subject-named-first', 'generator': 'alias-switch', 'file': None, 'edits': []})
+
+# Compose builds the scaled node with an aggregate initialiser instead of copy-and-patch (every
+# field listed).  M8 first read the counts only from assignments (seed d01 showed it).
+N.append({'id': 'cxx-compose-node-built-in-place', 'file': 'src/treespec/treespec.cpp', 'edits': [(
+    """            Node new_node{node};
+            new_node.num_leaves = node.num_leaves * num_inner_leaves;
+            new_node.num_nodes =
+                (node.num_nodes - node.num_leaves) + (node.num_leaves * num_inner_nodes);
+            treespec->m_traversal.emplace_back(std::move(new_node));""",
+    """            treespec->m_traversal.emplace_back(Node{
+                .kind = node.kind,
+                .arity = node.arity,
+                .node_data = node.node_data,
+                .node_entries = node.node_entries,
+                .custom = node.custom,
+                .num_leaves = node.num_leaves * num_inner_leaves,
+                .num_nodes =
+                    (node.num_nodes - node.num_leaves) + (node.num_leaves * num_inner_nodes),
+                .original_keys = node.original_keys,
+            });""")]})
